@@ -5,6 +5,8 @@ import (
 	"sort"
 	"strings"
 
+	"golang.org/x/tools/go/ssa"
+
 	"symgo/solver"
 	"symgo/term"
 )
@@ -81,6 +83,8 @@ type State struct {
 	curFn    string
 	callStack []string
 	lockTab  map[string]int
+	bind     map[string]*term.T
+	noIntrinsic *ssa.Function
 	fmtDepth int
 	expectBlocked bool
 }
@@ -100,6 +104,7 @@ func (st *State) unsupported(format string, args ...interface{}) {
 
 func (st *State) addPC(c *term.T) {
 	st.pc = append(st.pc, solver.NewAssertion(c))
+	st.noteBinding(c)
 }
 
 func (st *State) replaying() bool { return st.pos < len(st.prefix) }
@@ -136,6 +141,10 @@ func (st *State) Branch(c *term.T) bool {
 	if c.IsConst() {
 		return c.Val == 1
 	}
+	c = st.simp(c)
+	if c.IsConst() {
+		return c.Val == 1
+	}
 	if st.concrete != nil {
 		st.end("engine-error", "symbolic condition in concrete mode")
 	}
@@ -157,6 +166,20 @@ func (st *State) Branch(c *term.T) bool {
 	}
 	st.w.branches++
 	nc := term.MkNot(c)
+	if len(st.pc) > 0 && c.Size() < 64 {
+		// syntactic shortcut: the condition (or its negation) is already a conjunct
+		cs, ncs := term.SMT(c), term.SMT(nc)
+		for i := range st.pc {
+			if st.pc[i].S == cs {
+				st.record = append(st.record, dForcedTrue)
+				return true
+			}
+			if st.pc[i].S == ncs {
+				st.record = append(st.record, dForcedFalse)
+				return false
+			}
+		}
+	}
 	tF, fF := 0, 0 // 0 unknown, 1 feasible, -1 infeasible
 	var tM, fM map[string]uint64
 	if v, ok := st.evalModel(c); ok {
@@ -164,6 +187,16 @@ func (st *State) Branch(c *term.T) bool {
 			tF, tM = 1, st.model
 		} else {
 			fF, fM = 1, st.model
+		}
+	}
+	if tF == 0 {
+		if m := st.guess(c); m != nil {
+			tF, tM = 1, m
+		}
+	}
+	if fF == 0 {
+		if m := st.guess(nc); m != nil {
+			fF, fM = 1, m
 		}
 	}
 	if tF == 0 {
@@ -235,13 +268,20 @@ func (st *State) Choose(conds []*term.T) int {
 			st.end("engine-error", "decision kind mismatch at choice (non-deterministic replay)")
 		}
 		k := int(d - dChoiceBase)
-		if conds[k] != nil && !conds[k].IsConst() {
-			st.addPC(conds[k])
+		if conds[k] != nil {
+			if ck := st.simp(conds[k]); !ck.IsConst() {
+				st.addPC(ck)
+			}
 		}
 		return k
 	}
 	var feas []int
 	var models []map[string]uint64
+	for i := range conds {
+		if conds[i] != nil {
+			conds[i] = st.simp(conds[i])
+		}
+	}
 	for i, c := range conds {
 		if c == nil || c.IsTrue() {
 			feas = append(feas, i)
@@ -254,6 +294,11 @@ func (st *State) Choose(conds []*term.T) int {
 		if v, ok := st.evalModel(c); ok && v {
 			feas = append(feas, i)
 			models = append(models, st.model)
+			continue
+		}
+		if m := st.guess(c); m != nil {
+			feas = append(feas, i)
+			models = append(models, m)
 			continue
 		}
 		r, m := st.sat(c)
@@ -302,6 +347,7 @@ func (st *State) Concretize(t *term.T, lo, hi int64) int64 {
 
 // Assume restricts the path to c.
 func (st *State) Assume(c *term.T) {
+	c = st.simp(c)
 	if c.IsConst() {
 		if c.Val == 0 {
 			st.end("assume", "")
@@ -425,6 +471,7 @@ func (st *State) failure(label string, cond []*term.T, detail string) {
 // Assert checks c on the current path.
 func (st *State) Assert(c *term.T, label string) {
 	st.asserts++
+	c = st.simp(c)
 	if c.IsTrue() {
 		st.w.trivialAsserts++
 		return
@@ -439,6 +486,16 @@ func (st *State) Assert(c *term.T, label string) {
 			return
 		default:
 			st.end("engine-error", "decision mismatch at assert")
+		}
+	}
+	if c.Size() < 64 {
+		cs := term.SMT(c)
+		for i := range st.pc {
+			if st.pc[i].S == cs {
+				st.w.trivialAsserts++
+				st.record = append(st.record, dAssertDone)
+				return
+			}
 		}
 	}
 	st.w.assertsChecked++
